@@ -38,7 +38,7 @@ ASSUMPTIONS = [
     "ranks 1 or 2, dot needs ranks >= 1, ddot ranks >= 2, @ needs ranks 1 or 2 (numpy's own rule)",
     "only float64 operands; / and ** on positive operands; Det/Inv on matrices with smallest singular value >= 1",
     "reshape is checked in C order only; np.where/einsum/concatenate/solve with operands already of equal rank "
-    "(numpy's own broadcasting, as the class docstring states); Norm only along tensor axes; FeArray.broadcast "
+    "(numpy's own broadcasting, as the class docstring states); FeArray.broadcast "
     "with tensor-valued coefficients only with tensor_ndim given (the documented way to disambiguate)",
     "Ne, nPg, dims <= 4, ranks <= 4",
 ]
@@ -404,7 +404,7 @@ def size1_contract(op, da, db):
     return all(x == y or 1 in (x, y) for x, y in pairs) and any(x != y for x, y in pairs)
 
 
-RANKS_04 = [1, 1, 1, 2, 2, 2, 2, 4, 4, 0, 3]
+RANKS_04 = [1, 1, 2, 2, 2, 4, 4, 0, 3, 3, 3]  # every rank pair of a contraction has its own index string: rank 3 as often as the others
 
 
 @st.composite
@@ -557,11 +557,14 @@ def check_tensorfn(case, rec):
 METHOD_REDUCERS = ["sum", "prod", "mean", "std", "var", "max", "min", "argmax", "argmin", "all", "any"]
 NP_ONLY_REDUCERS = ["median", "average", "amax", "amin"]
 # other numpy reductions that reach the FeArray through the array protocols
-EXTRA_REDUCERS = ["nansum", "nanmax", "ptp", "count_nonzero", "add.reduce", "maximum.reduce", "linalg.norm"]
-NO_TUPLE = ["argmax", "argmin", "linalg.norm"]
+# "Norm" = the library's own wrapper of np.linalg.norm (a keyword-only axis): same type rule as any other reduction
+EXTRA_REDUCERS = ["nansum", "nanmax", "ptp", "count_nonzero", "add.reduce", "maximum.reduce", "linalg.norm", "Norm", "Norm"]
+NO_TUPLE = ["argmax", "argmin", "linalg.norm", "Norm"]
 
 
 def np_callable(name):
+    if name == "Norm":
+        return lambda x, **kw: (Norm if isinstance(x, FeArray) else np.linalg.norm)(x, **kw)
     f = np
     for part in name.split("."):
         f = getattr(f, part)
@@ -929,3 +932,32 @@ LEVEL_NOTE = ("exploration over Ne,nPg,dims<=4 and ranks<=4, float64 only; np.wh
               "combinations is not established")
 TECHNIQUE = "property-based testing (Hypothesis) vs explicit per-(e,p) numpy loop oracle"
 DESIGN_REF = "DESIGN.md 4/C12"
+
+
+# ------------------------------------------------------------------------------------------
+# (added by the lead, round 8) every pair of tensor ranks of a contraction has its own index string in the library: the finite table
+# (operation x rank of the left operand x rank of the right operand x kinds of operands) is enumerated with tensor dimensions that
+# differ from the numbers of elements and of integration points and with full (non-symmetric) tensors
+
+
+def enum_rank_pairs(tier):
+    Ne, nPg, d = 3, 2, 2
+    for op in ("dot", "ddot", "matmul", "tensorprod"):
+        rmax = 2 if op in ("matmul",) else 4
+        for ra in range(0, rmax + 1):
+            for rb in range(0, rmax + 1):
+                if op == "tensorprod" and ra != rb:
+                    continue
+                for ka, kb in (("fe", "fe"), ("fe", "arr"), ("arr", "fe")):
+                    if op in ("dot", "ddot") and ka != "fe":
+                        continue  # methods of the FeArray
+                    if op == "matmul" and ka == "arr":
+                        continue  # a plain array on the left of @ is known finding C12-a (decided and counted in `contract`)
+                    for dd in (2, 3):
+                        a = fe_spec([dd] * ra) if ka == "fe" else arr_spec([dd] * ra)
+                        b = fe_spec([dd] * rb) if kb == "fe" else arr_spec([dd] * rb)
+                        yield dict(op=op, Ne=Ne, nPg=nPg, a=a, b=b, k=7 * ra + rb + dd)
+
+
+SUBS.append(Sub("rank_pairs", check_contract, enum=enum_rank_pairs,
+                doc="dot / ddot / @ / TensorProd x every pair of tensor ranks (0..4, 0..2 for @) x operand kinds x tensor dimension 2 / 3"))
